@@ -268,13 +268,16 @@ FRAME_OPS = [
 OP_GROUPS = {'fills': FRAME_OPS[0:8], 'na': FRAME_OPS[8:13], 'reduce': FRAME_OPS[13:20], 'struct': FRAME_OPS[20:]}
 
 
-def mk_missing_all_layouts(nrows, ncols, group, tier='quick'):
+def mk_missing_all_layouts(nrows, ncols, group, tier='quick', flag_rows=None, uniform_singles=False, timeout=400):
     lays = layouts.compositions(ncols)
+    if uniform_singles:   # per width pattern only "all one-column blocks 1-D" and "all one-column blocks 2-D"
+        lays = [lay for lay in lays if len({nd for nd, w in lay if w == 1}) <= 1]
+    flag_rows = nrows if flag_rows is None else flag_rows      # rows whose cells may be missing (the others never are)
     FRAME_OPS = OP_GROUPS[group]     # noqa: N806  (shadows the full list inside this condition)
 
     def body(env, **kw):
         from vf import rt
-        flags = [[bool(kw[f'm{r}{c}']) for c in range(ncols)] for r in range(nrows)]
+        flags = [[(bool(kw[f'm{r}{c}']) if r < flag_rows else False) for c in range(ncols)] for r in range(nrows)]
 
         def run():
             sf = env.sf
@@ -297,17 +300,17 @@ def mk_missing_all_layouts(nrows, ncols, group, tier='quick'):
             got = [results(lay) for lay in lays]
             return got, [can] * len(lays)
         return rt.untraced(run)
-    return Cond(f'frame_ops_all_layouts_{group}_{nrows}x{ncols}', [(f'm{r}{c}', 'bool') for r in range(nrows) for c in range(ncols)], body,
+    return Cond(f'frame_ops_all_layouts_{group}_{nrows}x{ncols}', [(f'm{r}{c}', 'bool') for r in range(flag_rows) for c in range(ncols)], body,
             functions=['TypeBlocks._fillna_sided_axis_1', 'TypeBlocks.ufunc_axis_skipna'],
-            bounds=f'{nrows}x{ncols} float64 frame, every missing pattern (one symbolic Boolean per cell), concrete other cells; EVERY one of the {len(lays)} block layouts against the one-block-per-column layout; {len(FRAME_OPS)} Frame operations',
-            route='Frame operations (' + ', '.join(n for n, _ in FRAME_OPS) + '): values, labels, per-column dtype kinds and raised error class equal across all block layouts', tier=tier, timeout=400)
+            bounds=f'{nrows}x{ncols} float64 frame, every missing pattern of the first {flag_rows} row(s) (one symbolic Boolean per cell), concrete other cells; {len(lays)} block layouts ({'one-column blocks all 1-D or all 2-D per width pattern' if uniform_singles else 'every composition'}) against the one-block-per-column layout; {len(FRAME_OPS)} Frame operations',
+            route='Frame operations (' + ', '.join(n for n, _ in FRAME_OPS) + '): values, labels, per-column dtype kinds and raised error class equal across all block layouts', tier=tier, timeout=timeout)
 
 
 for _g in OP_GROUPS:
     _add(mk_missing_all_layouts(1, 4, _g))
     _add(mk_missing_all_layouts(2, 3, _g))
-    _add(mk_missing_all_layouts(1, 5, _g, tier='thorough'))
-    _add(mk_missing_all_layouts(3, 3, _g, tier='thorough'))
+    _add(mk_missing_all_layouts(1, 5, _g, tier='thorough', uniform_singles=True, timeout=1500))
+    _add(mk_missing_all_layouts(3, 3, _g, tier='thorough', flag_rows=2, timeout=1500))
 
 
 # ---------------------------------------------------------------- dtype-kind mixes: one-row reductions over every layout
